@@ -17,18 +17,22 @@ Definition wf_v5_rec (r : v5rec) : bool := fits v5_rec_ws r.
 Definition gen_ws (ws : list nat) : Gen (list N) :=
   fold_right (fun w acc => gdo v <- gval (8 * N.of_nat w); gdo vs <- acc; gret (v :: vs)) (gret []) ws.
 
+(* a record: one in ten is all zero *)
+Definition gen_v5_rec : Gen v5rec :=
+  gdo c <- grand 10; if c =? 0 then gret (map (fun _ => 0) v5_rec_ws) else gen_ws v5_rec_ws.
+
 (* a well-formed datagram: count = number of records, 0..30 records *)
 Definition gen_v5_wf : Gen (list N * list v5rec) :=
   gdo n <- grand 31;
   gdo h <- gen_ws v5_hdr_ws;
-  gdo rs <- glist (N.to_nat n) (gen_ws v5_rec_ws);
+  gdo rs <- glist (N.to_nat n) gen_v5_rec;
   gret (set_count h n, rs).
 
 (* k complete records, a partial one of p bytes, header count c >= k *)
 Definition gen_v5_trunc : Gen ((list N * list v5rec) * bytes) :=
   gdo k <- grand 6;
   gdo h <- gen_ws v5_hdr_ws;
-  gdo rs <- glist (N.to_nat k) (gen_ws v5_rec_ws);
+  gdo rs <- glist (N.to_nat k) gen_v5_rec;
   gdo p <- grand 48;
   gdo part <- gbytes (N.to_nat p);
   gdo sel <- grand 4;
